@@ -216,9 +216,38 @@ def gen_guarded(idx: int) -> dict:
     return {"source": src, "features": sorted(feats), "context": CONTEXT}
 
 
+LOOPSEP = [
+    "SELECT {% for c in lst %}{% if not loop.first %} + {% endif %}{{ c }}{% endfor %} AS s FROM t",
+    "{% for c in lst2 %}{% if not loop.first %}UNION ALL{% endif %} SELECT '{{ c }}' AS x FROM t {% endfor %}",
+    "SELECT a FROM t WHERE {% for c in lst %}{% if not loop.first %} AND {% endif %}x > {{ c }}{% endfor %}",
+    "SELECT {% for c in lst %}{% if not loop.first %}, {% endif %}c{{ c }}{% endfor %} FROM t",
+    "SELECT a FROM t ORDER BY {% for c in lst2 %}{% if not loop.first %}, {% endif %}{{ c }} DESC{% endfor %}",
+    "SELECT COALESCE({% for c in lst2 %}{% if not loop.first %}, {% endif %}{{ c }}{% endfor %}) AS v FROM t",
+    "{% for c in lst %}{% if loop.index > 1 %}UNION{% endif %}\nSELECT {{ c }} AS n{% endfor %}",
+    "SELECT a FROM t WHERE a IN ({% for c in lst %}{% if not loop.first %},{% endif %}{{ c }}{% endfor %})",
+    "SELECT {% for c in lst %}{{ ', ' if not loop.first else '' }}c{{ c }}{% endfor %} FROM t",
+    "SELECT CASE {% for c in lst %}{% if not loop.first %} {% endif %}WHEN a = {{ c }} THEN {{ c }}{% endfor %} END AS x FROM t",
+]
+
+
+def gen_loopsep(idx: int) -> dict:
+    """loops that emit their separator at the START of each iteration but the first: a node can begin in the middle of
+    the loop body, so a later child lies EARLIER in the source than the node's first child."""
+    r = rng("jinja-loopsep", 1, idx)
+    src = LOOPSEP[idx % len(LOOPSEP)]
+    if r.random() < 0.5:
+        src = src.replace("{% if not loop.first %}", r.choice(["{%- if not loop.first %}", "{% if not loop.first -%}", "{%if not loop.first%}"]))
+    if r.random() < 0.5:
+        src = src.replace("SELECT", r.choice(["select", "SELECT  ", "SELECT\n   "]))
+    src += r.choice(["\n", "", "\n\n", " \n"])
+    return {"source": src, "features": ["loop", "loop_leading_separator", "conditional"], "context": CONTEXT}
+
+
 def gen(idx: int, flavour: str = "hostile") -> dict:
     if flavour == "guarded":
         return gen_guarded(idx)
+    if flavour == "loopsep":
+        return gen_loopsep(idx)
     r = rng("jinja", VERSION, flavour, idx)
     g = _Gen(r)
     if flavour == "hostile":
